@@ -724,7 +724,9 @@ func (p *Pollard) readOne(n *polNode, r io.Reader) (int64, error) {
 	readBytes, err := io.ReadFull(r, n.data[:])
 	if err != nil {
 		if err == io.EOF {
-			return int64(readBytes), nil
+			// The number of nodes is given by the leaf count and the
+			// niece flags so a node is always expected here.
+			err = io.ErrUnexpectedEOF
 		}
 		return totalBytes, err
 	}
